@@ -263,6 +263,13 @@ func (c *Ctx) Violation(kase any, first *Failure, rejudge func() *Failure, testT
 	}
 }
 
+// Violated reports whether a violation has been recorded so far.
+func (c *Ctx) Violated() bool {
+	c.mu.Lock()
+	defer c.mu.Unlock()
+	return len(c.violations) > 0
+}
+
 // LoadReplay returns the raw case of a replay file.
 func (c *Ctx) LoadReplay() []byte {
 	raw, err := os.ReadFile(c.Replay)
